@@ -222,7 +222,7 @@ R('r_serde', ['C20'], ['serde::Deserialize for HashMap', 'serde::Deserialize for
 VERUS = {
     # unit -> dict(props, widths, tier, desc)
     'ctrl': dict(props=['C01', 'C06', 'C13', 'C02', 'C10', 'C18'], tier='quick',
-                 desc='control-byte logic of the table core on extracted text over a Vec<u8> view of the control array, all table sizes, both widths: set_ctrl (mirror index, mirror invariant, frame), set_ctrl_hash, replace_ctrl_hash, is_bucket_full, record_item_insert_at (accounting F1), erase (EMPTY/DELETED, accounting, frame, no tombstone below one group), Tag, probe_seq; every control-byte access in bounds',
+                 desc='control-byte logic of the table core on extracted text over a Vec<u8> view of the control array, all table sizes, both widths: set_ctrl (mirror index, mirror invariant, frame), set_ctrl_hash, replace_ctrl_hash, is_bucket_full, record_item_insert_at (accounting F1), erase (EMPTY/DELETED, accounting, frame, no tombstone below one group, and the gap witness of the tombstone rule: EMPTY only when EMPTY bytes lie on both sides fewer than WIDTH apart), Tag, probe_seq, find_insert_slot_in_group / fix_insert_slot / find_insert_slot (result special, reachable for the probed hash, terminates), find_inner (sound, None-certificate, terminates for any eq), find_or_find_insert_slot_inner; every control-byte access in bounds; lemma layer over these contracts: F1 gives an EMPTY bucket (L4), insert into the found slot and erase both preserve the reachability invariant F2 of every other element (L3, L2), lookup answers Some exactly when a FULL bucket accepted by eq exists (L5)',
                  paired={}),
     'guard': dict(props=['C04', 'C02'], tier='quick',
                   desc='the scope-guard closure of rehash_in_place, extracted from inside the real function (closure header -> function header with the captures as parameters): from any state a hasher call can leave behind (buckets EMPTY / FULL / DELETED-marked, items counting the last two) it leaves no marker, items == #FULL, growth_left == capacity - items, mirror invariant intact -- with and without drop glue; this is the clause the defect fixed by 7863c1b violated',
@@ -237,7 +237,7 @@ VERUS = {
                  desc='reserve_rehash_inner, RawTable::reserve, RawTable::try_reserve and RawTableInner::with_capacity on extracted text against the contracts of rehash_in_place, resize_inner and fallible_with_capacity (the hint::unreachable_unchecked() calls are proved dead): success gives room and loses nothing, tombstones are reclaimed in place exactly when len+additional <= capacity/2, otherwise growth to at least max(len+additional, capacity+1), errors only in fallible mode with nothing changed, unrepresentable requests reported; plus the churn lemma L6: every growth step the contract allows, with at most m live elements and additional = 1, lands on at most max(16, 5(m+1)) buckets, so along any insert/remove history buckets <= max(initial, that bound)',
                  paired={}),
     'arith': dict(props=['C17', 'C08', 'C12', 'C13'], tier='quick',
-                  desc='capacity / layout / probe-step arithmetic on extracted text, and the probe-cycle theorem (triangular numbers are distinct modulo 2^g; k calls of move_next reach (start + W*k(k+1)/2) mod n; the first n/W positions are pairwise different and group-aligned), all inputs, all table sizes, both group widths',
+                  desc='capacity / layout / probe-step arithmetic on extracted text, and the probe-cycle theorem (triangular numbers are distinct modulo 2^g; k calls of move_next reach (start + W*k(k+1)/2) mod n; the first n/W positions are pairwise different and group-aligned), layout containment L7 over calculate_layout_for's contract (element ranges below the control bytes, pairwise disjoint, aligned for T; control bytes end at the allocation's end), all inputs, all table sizes, both group widths',
                   # Verus function -> the complete CBMC obligation proving the same contract (used for the
                   # brittleness exception and to search for a failing input)
                   paired={'capacity_to_buckets': 'h_capacity_to_buckets',
